@@ -855,7 +855,14 @@ func loadedField(v ssa.Value) (string, ssa.Value) {
 // of a struct whose named type is typeName (package-qualified name suffix match).
 func storesToField(f *ssa.Function, typeName, name string) []*ssa.Store {
 	var out []*ssa.Store
-	for _, g := range WithAnon(f) {
+	fns := WithAnon(f)
+	if u := unitOf(f); len(u) > 1 {
+		CallsIn(f) // registers the via-mapping of the transparent helpers' instructions
+		for _, h := range u[1:] {
+			fns = append(fns, WithAnon(h)...)
+		}
+	}
+	for _, g := range fns {
 		for _, b := range g.Blocks {
 			for _, in := range b.Instrs {
 				st, ok := in.(*ssa.Store)
